@@ -91,7 +91,14 @@ def make_sim(kind, cfg):
     # the twins of one case are built the same way (directly or through the web front end's constructor, chosen per
     # configuration): a defect of one construction path is that path's finding, not a lifecycle / purity difference
     via = "webgui" if h64([kind, cfg.get("hz", True), cfg.get("dcache"), cfg.get("icache")]) % 3 == 0 else "direct"
-    return make_riscv("five" if kind == "five" else "single", hz=cfg.get("hz", True), dcache=cfg.get("dcache"), icache=cfg.get("icache"), via=via)
+    sim = make_riscv("five" if kind == "five" else "single", hz=cfg.get("hz", True), dcache=cfg.get("dcache"), icache=cfg.get("icache"), via=via)
+    if cfg.get("swap_memories"):
+        from architecture_simulator.uarch.memory.memory import Memory, AddressingType
+        from architecture_simulator.uarch.memory.instruction_memory import InstructionMemory
+
+        sim.state.memory = Memory(AddressingType.BYTE, 32, True, range(2**14, 2**32))
+        sim.state.instruction_memory = InstructionMemory()
+    return sim
 
 
 def snap(kind, sim):
@@ -415,6 +422,12 @@ def gen_life_case(rng):
         history.insert(rng.randint(0, len(history)), text)  # the very same text was loaded before (editor re-assembles)
     if rng.random() < 0.15:
         cfg["via_state"] = rng.choice(["default", "matching"])
+    elif rng.random() < 0.12:
+        # the data memory / instruction memory objects of the state are REPLACED by the caller after construction
+        # (the idiom of the project's own tests): a load works on the objects the state holds now
+        cfg["dcache"] = None
+        cfg["icache"] = None
+        cfg["swap_memories"] = True
     poke_steps = None
     if rng.random() < 0.3:
         # histories of programs that do not start the simulation (empty / data only / malformed / first instruction
